@@ -9,11 +9,13 @@ CFG = dict(
                "closed (the messages fed are the messages emitted); instantiated for n∈{4,7,10,13} with the round-robin leader. "
                "(c) continuation from every reachable state is NOT proved and is FALSE on this tree: C07_mixed_locks_never_justify proves for all inputs that a round-change "
                "set holding locks on two different values justifies no proposal; the wedge state is reached and the constructed continuation refuted inside the model "
-               "(C07_wedge_*) and on real controllers (known finding). The harness checks the constructed continuation from hundreds of adversarial prefixes on real controllers.",
-    level_note="Partial: no theorem that a deciding continuation exists from every reachable state (it does not: two known findings); no formal proof that NO schedule helps in "
-               "the wedge state (only the mechanism lemma + the constructed continuation). Timeliness after the chosen point is an assumption of the oracle.",
+               "(C07_wedge_*) and on real controllers (known finding). Ssv/Props/C07Wedge.lean makes the refutation a theorem of the multi-node system SystemB: the wedge state is "
+               "Reachable (33-step schedule) and in EVERY continuation in which the faulty member signs no commit and no round-change for a round >= 3 (a silent member is a "
+               "special case) no correct operator ever decides, accepts a proposal or changes its lock (C07_wedge_forever, C07_continuation_refuted); only the faulty member "
+               "can unlock it (C07_wedge_only_byzantine_unlocks). The harness checks the constructed continuation from hundreds of adversarial prefixes on real controllers.",
+    level_note="Partial: no theorem that a deciding continuation exists from every reachable state (it does not: two known findings); the clause `from every reachable state` is REFUTED as a theorem (C07_continuation_refuted), not proved. Timeliness after the chosen point is an assumption of the oracle.",
     technique="Lean 4 proof (∀-state step lemma; generic induction over prepares/commits; mechanism lemma; evaluated multi-node witness) + real multi-node continuation check",
-    lean=["Ssv.Props.C07"],
+    lean=["Ssv.Props.C07", "Ssv.Props.C07Wedge"],
     engines=[dict(harness="qbft", driver="m_qbft", args=["-mode", "c07"], case_delim="reset",
                   n_quick=14000, n_thorough=200000, thorough_seeds=4, n_search=60000, search_seeds=3)],
     rule="adversarial prefixes as for C01 (n=4,7; ≤ f Byzantine; drops, duplicates, reorderings, timeouts, compaction on/off), then the Byzantine operators go silent and the "
